@@ -24,10 +24,22 @@ CHECKS = [
         "note": COMMON_NOTE,
         "technique": "grammar extraction by abstract interpretation of the parser source; path-summary rules; CFG dominance; token-table extraction",
     },
+    {
+        "property_id": "C02",
+        "text": "Structural clauses only: identity protocol (__eq__/__hash__ contracts) of the 12 classes used for term "
+        "identity; dispatch completeness of the 7 operator overloads over the closed universe of 6 classes by "
+        "type-level abstract interpretation (every operand shape the property quantifies over is supported; "
+        "12 unsupported shapes are recorded as known findings); resolver operator map; linear use of mutated "
+        "sub-results; duplicate-free containers. NOT decided: that the set of terms a branch constructs is the "
+        "documented expansion (needs an executable reference algebra = another technique family).",
+        "design_ref": "DESIGN.md section 3, C02 (R2.1-R2.5); section 4 F2-F5",
+        "note": COMMON_NOTE,
+        "technique": "type-level abstract interpretation of operator overloads (dispatch table extraction); AST protocol lint; CFG dominance of membership guards",
+    },
 ]
 PENDING = "claimed in DESIGN.md; its check is not registered in this revision of /verif yet"
 NOT_APPLICABLE = [
     {"property_id": "C03", "reason": "rank and column space of a data-dependent matrix are linear-algebra facts about runtime values; no sound static argument in reach bounds the patsy-style redundancy algorithm for every term family and order"},
     {"property_id": "C13", "reason": "rank, zero-sum and span of contrast matrices for every size/reference are algebraic identities over np.eye/vstack index arithmetic; deciding them needs evaluation or proof, not code shape (index agreement between matrix and labels is decided under C04, option plumbing under C16)"},
     {"property_id": "C14", "reason": "mean zero, unit deviation, partition of unity, orthonormality are numerical identities over all inputs; the only shape-level clause (parameters fitted once and frozen) is decided under C06"},
-] + [{"property_id": p, "reason": PENDING} for p in ["C02", "C04", "C05", "C06", "C07", "C08", "C09", "C10", "C11", "C12", "C15", "C16", "C17"]]
+] + [{"property_id": p, "reason": PENDING} for p in ["C04", "C05", "C06", "C07", "C08", "C09", "C10", "C11", "C12", "C15", "C16", "C17"]]
